@@ -26,6 +26,7 @@ from symx.solver import prove_zero, prove_formula, prove_rel, assume_z3
 from symx.poly import tofrac
 from symx.val import EngineError
 from symx import harness as H
+from . import C34
 from .C34 import explore, decide
 
 MOD = "harness.C35"
@@ -756,7 +757,11 @@ def main():
             chk.case("integrand.%s.mode%d" % ("log" if is_log else "lin", mode0), case_integrand, is_log=is_log, mode0=mode0)
     chk.case("evaluate_grid.dispatch", case_dispatch, deg=2)
     import eko.evolution_operator.quad_ker  # noqa: F401  imported once per run; case workers are forked from here
-    return chk.run()
+    C34.clear_markers()
+    try:
+        return chk.run()
+    finally:
+        C34.clear_markers()
 
 
 if __name__ == "__main__":
